@@ -2,8 +2,11 @@ import SpoxModel.Props.C18
 /-! `#print axioms` for every property theorem of C18; parsed by ./check. -/
 #print axioms C18.custom_verbatim
 #print axioms C18.custom_arity
+#print axioms C18.custom_identity_free
 #print axioms C18.custom_import
 #print axioms C18.custom_domain_kept
 #print axioms C18.hooks_determine
 #print axioms C18.no_hooks_untyped
 #print axioms C18.dropped_iff
+#print axioms C18.relabel_build
+#print axioms C18.custom_composes
